@@ -119,25 +119,27 @@ def evCasFail (a : Nat) (seen : Option Nat) (sm : Bool) (exp : Option Nat) (em :
 /-! ### Transitions -/
 
 /-- The key `search` looks for. -/
-def okey (s : St) : OpK → Int
-  | .ins n => s.key n
+def okey (key : Nat → Int) : OpK → Int
+  | .ins n => key n
   | .era k => k
   | .fnd k => k
   | .con k => k
 
 /-- `search` returned true with `pos = ( prev, cur, nx )`. -/
-def found (s : St) (o : OpK) (prev cur : Nat) (nx : Option Nat) : PC :=
+def found (val : Nat → Int) (o : OpK) (prev cur : Nat) (nx : Option Nat) : PC :=
   match o with
   | .ins _ => .done [0]
   | .era k => .eMark k prev cur nx
-  | .fnd _ => .done [1, s.val cur]
+  | .fnd _ => .done [1, val cur]
   | .con _ => .done [1]
 
 /-- `search` returned false with `pos = ( prev, cur, _ )`. -/
 def notFound (o : OpK) (prev : Nat) (cur : Option Nat) : PC :=
   match o with
   | .ins n => .iSt n prev cur
-  | _ => .done [0]
+  | .era _ => .done [0]
+  | .fnd _ => .done [0]
+  | .con _ => .done [0]
 
 /-- The traversal goes on with `pCur := nx` (top of the `while` loop in `search`). -/
 def advance (o : OpK) (prev : Nat) (nx : Option Nat) : PC :=
@@ -146,10 +148,10 @@ def advance (o : OpK) (prev : Nat) (nx : Option Nat) : PC :=
   | some x => .sNx1 o prev x
 
 /-- What `search` does after the validation `pPrev->load() == pCur` has succeeded. -/
-def afterChk (s : St) (o : OpK) (prev cur : Nat) (nx : Option Nat) (mk : Bool) : PC :=
+def afterChk (key val : Nat → Int) (o : OpK) (prev cur : Nat) (nx : Option Nat) (mk : Bool) : PC :=
   if mk then .sHelp o prev cur nx
-  else if s.key cur = okey s o then found s o prev cur nx
-  else if okey s o < s.key cur then notFound o prev (some cur)
+  else if key cur = okey key o then found val o prev cur nx
+  else if okey key o < key cur then notFound o prev (some cur)
   else advance o cur nx
 
 /-- `insert [k, v]`: the client supplies a fresh node carrying `(k, v)` (its `m_pNext` is null: `link_checker`);
@@ -181,7 +183,7 @@ def step (s : St) (t : Tid) : Option (St × Ev) :=
       some ({ s with pc := upd s.pc t (.sNx1 o prev cur) }, evLd cur (s.next cur) (s.mark cur))
   | .sChk o prev cur nx mk =>
     if s.next prev = some cur ∧ s.mark prev = false then
-      some ({ s with pc := upd s.pc t (afterChk s o prev cur nx mk) }, evLd prev (s.next prev) (s.mark prev))
+      some ({ s with pc := upd s.pc t (afterChk s.key s.val o prev cur nx mk) }, evLd prev (s.next prev) (s.mark prev))
     else
       some ({ s with pc := upd s.pc t (.sLd1 o) }, evLd prev (s.next prev) (s.mark prev))
   | .sHelp o prev cur nx =>
